@@ -40,3 +40,7 @@ pub fn overrun(len: usize, additional: usize, capacity: usize) {
         p => (unsafe {std::mem::transmute::<usize, fn(usize, usize, usize)>(p)})(len, additional, capacity)
     }
 }
+
+/// Routing item types are public but not nameable from outside the crate; a harness that assembles
+/// applications from run-time descriptions needs to name them.
+pub use crate::ohkami::routing::{Routing, HandlerSet, ByAnother, Dir};
